@@ -129,15 +129,30 @@ class Ctx:
         self.t0 = time.time()
         # runs against a scratch checkout (seeded changes) build elsewhere, so that they
         # cannot wipe the build directory of a concurrent run against /repo
-        self.bdir = os.path.join(BUILD, "scratch_build", pid) if _SCR else os.path.join(BUILD, pid)
+        # (one directory per process: concurrent scratch runs of one property must not share
+        # .v/.vo files); runs against /repo take an exclusive lock on build/<pid>.lock, so two
+        # concurrent runs of the same property serialise instead of wiping each other's files
+        os.makedirs(BUILD, exist_ok=True)
+        if _SCR:
+            self.bdir = os.path.join(BUILD, "scratch_build", "%s.%d" % (pid, os.getpid()))
+            import atexit
+            atexit.register(shutil.rmtree, self.bdir, True)
+        else:
+            self.bdir = os.path.join(BUILD, pid)
+            import fcntl
+            self._lock = open(os.path.join(BUILD, pid + ".lock"), "w")
+            fcntl.flock(self._lock, fcntl.LOCK_EX)
         shutil.rmtree(self.bdir, ignore_errors=True)
         os.makedirs(self.bdir, exist_ok=True)
+        ensure_library()
         os.makedirs(EVID, exist_ok=True)
         os.makedirs(REPLAYS, exist_ok=True)
         self.obligations = []        # list of dict(name, ok, axioms, detail)
         self.broken = []             # names of theorems / ties that do not check
         self.violations = []         # dict(replay, note, no_input)
         self.known_hits = []
+        self.known_count = {}        # key -> number of failing inputs attributed to it
+        self.known_inputs = {}       # key -> first few replays attributed to it
         self.cov = {"evaluations": 0, "distinct_nontrivial": 0, "samples": [],
                     "correspondence": {}, "distribution": {}}
         self.assumptions = []
@@ -329,6 +344,9 @@ class Ctx:
             if k.get("property") == self.pid and k.get("key") == key:
                 if key not in [h["key"] for h in self.known_hits]:
                     self.known_hits.append(dict(key=key, what=k.get("what", what)))
+                self.known_count[key] = self.known_count.get(key, 0) + 1
+                if len(self.known_inputs.setdefault(key, [])) < 12:
+                    self.known_inputs[key].append(dict(what=what, replay=replay))
                 return False
         replay = dict(replay)
         replay.update(property=self.pid, what=what, key=key)
@@ -356,6 +374,30 @@ class Ctx:
                 json.dump(replay, f, indent=1, default=str)
             self.violations.append(dict(replay=path, what=";".join(self.broken),
                                         key="broken", no_input=True))
+        # a recorded finding identifies a specific input or a narrow class; the class rules
+        # are symptom-based, so a regression that multiplies the symptom must not hide behind
+        # the key: each entry carries the largest number of hits seen on the unchanged tree
+        # (per tier, over many seeds, with slack) and more hits than that is a violation
+        for k in self.known.get("findings", []):
+            if k.get("property") != self.pid:
+                continue
+            cap = (k.get("max_hits") or {}).get(self.tier)
+            n = self.known_count.get(k["key"], 0)
+            if cap is not None and n > cap:
+                replay = dict(property=self.pid, key=k["key"] + ":more-often-than-recorded",
+                              hits=n, max_hits=cap, inputs=self.known_inputs.get(k["key"], []),
+                              what="%d failing inputs fall into the class of the recorded finding "
+                                   "%s, more than the %d ever seen on the unchanged tree"
+                                   % (n, k["key"], cap))
+                path = os.path.join(REPLAYS, "%s-%s.json" % (self.pid, sha(json.dumps(
+                    replay, sort_keys=True, default=str))))
+                with open(path, "w") as f:
+                    json.dump(replay, f, indent=1, default=str)
+                self.violations.append(dict(replay=path, what=replay["what"],
+                                            key=replay["key"], no_input=False))
+                self.log("FAILING INPUT:", replay["what"])
+        for h in self.known_hits:
+            h["hits"] = self.known_count.get(h["key"], 0)
         nob = len(self.obligations)
         ndis = sum(1 for o in self.obligations if o["ok"])
         cov = self.cov
@@ -395,6 +437,21 @@ class Ctx:
         self.log("obligations %d/%d, correspondence evaluations %d, violations %d" % (
             ndis, nob, cov["evaluations"], len(self.violations)))
         return 1 if self.violations else 0
+
+
+def ensure_library():
+    """The repo-independent Coq library under coq/ is built by setup.sh; make sure its .vo
+    files are consistent with its .v sources on every run (a no-op `make` when up to date,
+    a rebuild when a source changed), under a lock so that concurrent checks do not compile
+    the same file at the same time."""
+    import fcntl
+    with open(os.path.join(BUILD, "lib.lock"), "w") as lk:
+        fcntl.flock(lk, fcntl.LOCK_EX)
+        if not os.path.exists(os.path.join(COQ, "Makefile")):
+            sh(["coq_makefile", "-f", "_CoqProject", "-o", "Makefile"], timeout=120, cwd=COQ)
+        rc, out, err = sh(["make", "-j8"], timeout=3000, cwd=COQ)
+        if rc != 0:
+            print("[vlib] building coq/ failed:\n" + tail(out + "\n" + err, 15), flush=True)
 
 
 def tail(s, n=12):
